@@ -92,8 +92,8 @@ func main() {
 	}
 	r := ev.Start("C02", "fault_enumeration")
 	r.Assume = append(r.Assume,
-		"cluster = verifh/vsys (in-process bigmachine.System, RPCs called inline through an interposing RoundTripper); a machine loss = transport refuses the host + its supervisor context is cancelled; keepalive 20/60/30 ms",
-		"retry back-offs of exec and bigmachine shrunk to milliseconds (same retry counts); exec.DoShuffleReaders=false; internal chunk size 4 rows so that task outputs consist of several encoded batches",
+		"cluster = verifh/vsys (in-process bigmachine.System, RPCs called inline through an interposing RoundTripper); a machine loss = transport refuses the host + its supervisor context is cancelled; keepalive period/timeout/rpc-timeout 20/200/100 ms (vsys default 20/60/30 loses machines spuriously when 16 cluster processes share the cores)",
+		"retry back-offs shrunk (same retry counts): bigmachine 1..5 ms, exec.retryReader 5..80 ms (production 1 s.. and 5..60 s); exec.DoShuffleReaders=false; internal chunk size 4 rows so that task outputs consist of several encoded batches",
 		"goroutine timing inside a cluster run is NOT controlled: crash points (labelled RPCs) are enumerated exhaustively, interleavings are whatever the Go runtime produces; a fault whose label does not occur in its run is 'not fired' and is not evidence",
 		"because of that, a recovery failure under M1 and a hang are reported only if they reproduce on 3 of 3 re-runs in which the fault fired; success with wrong rows is reported on first sight (re-run count in the detail)",
 		"machine-combiner sessions are excluded (the property excludes them)")
@@ -119,6 +119,7 @@ func main() {
 	// machine was lost in it (under load a keepalive can time out; the driver's
 	// view of its machines tells). Up to 4 rounds are made to collect nFreeRuns
 	// such runs.
+	var suspects []suspect
 	cands := map[string][]cresult{}
 	cleanRuns := func(name string) []cresult { return cands[name] }
 	failed := map[string]bool{}
@@ -141,10 +142,10 @@ func main() {
 			inf := infos[c.Prog]
 			tl.evaluations++
 			nFree++
-			if res.Hung || res.Crash != "" || res.Out.RunErr != "" || res.Out.ScanErr != "" || !equalRows(res.Out.Rows, inf.expected) {
-				r.Violate("C02/"+c.Prog+"/no-fault/"+classify(res, inf.expected, "M1"),
-					"a distributed run without injected faults does not deliver the rows of the local executor",
-					map[string]interface{}{"program": c.Prog, "expected": inf.expected, "got": res.Out, "hung": res.Hung, "crash": res.Crash, "history": res.History, "goroutine_dump": res.Dump})
+			if cl := classify(res, inf.expected, "M1"); cl != "ok" {
+				// confirmed (or not) by re-runs like every other suspect
+				suspects = append(suspects, suspect{c, res, cl, "C02/" + c.Prog + "/M1/no-fault/" + cl})
+				tl.outcomes["no-fault/"+cl]++
 				failed[c.Prog] = true
 				continue
 			}
@@ -160,7 +161,9 @@ func main() {
 		inf.scanOnly, inf.readLen, inf.bounds = map[string]bool{}, map[string]int{}, map[string][]int{}
 		runs := cleanRuns(p.name)
 		nClean += len(runs)
-		if len(runs) < nFreeRuns {
+		if failed[p.name] {
+			r.NotExhaustive(p.name + ": a run without injected faults failed the oracle; its faults were not enumerated")
+		} else if len(runs) < nFreeRuns {
 			r.NotExhaustive(fmt.Sprintf("%s: only %d of %d runs without injected faults were free of spurious machine loss", p.name, len(runs), nFreeRuns))
 		}
 		for _, res := range runs {
@@ -191,9 +194,6 @@ func main() {
 	}
 	for _, inf := range infos {
 		sort.Strings(inf.hosts)
-	}
-	if r.Violations() > 0 {
-		r.Finish(ev.Coverage{"evaluations": tl.evaluations, "distinct_nontrivial": 0, "rule": "failure-free runs disagree with the local executor; fault enumeration not started"})
 	}
 	// simplest first
 	sort.SliceStable(progs, func(i, j int) bool {
@@ -230,7 +230,6 @@ func main() {
 		}
 		progSizes[p.name] = len(singles) - n0
 	}
-	var suspects []suspect
 	firedSingles := map[int]cresult{}
 	exploreAll(r, singles, infos, budget, &suspects, firedSingles, "single faults")
 
